@@ -2,8 +2,8 @@
 import subjects
 
 SPEC = dict(modules=["MemVerif.Props.C01", "MemVerif.Props.C01Stack", "MemVerif.Props.C01Ord", "MemVerif.Props.C07"], gen_cfgs=("rwdi",),
-            assumptions=["proved: memory_pool over the unordered AND the ordered free list (all histories incl. arrays, any environment, any configuration; Props/C01Ord: ordered list stays sorted with a valid cursor, find_pos finds every released pointer); memory_stack over growing/fixed sources (all histories of allocate/try_allocate/nested marker scopes: C01_stack_live_disjoint_inside); iteration regions (C07). "
-                         "small-node pools, collections, memory_stack over static storage, static_allocator: correspondence + overlap/inside/content oracles (partial)",
+            assumptions=["proved: memory_pool over ALL THREE free lists - unordered, ordered, small node - (all histories incl. arrays, any environment, any configuration; Props/C01Ord: ordered list stays sorted with a valid cursor, find_pos finds every released pointer; small list: chunk ring sorted, cursors valid, chunk search finds every live node, checks never fire for a live node); memory_stack over growing/fixed sources (all histories of allocate/try_allocate/nested marker scopes: C01_stack_live_disjoint_inside); iteration regions (C07). "
+                         "collections, memory_stack over static storage, static_allocator: correspondence + overlap/inside/content oracles (partial)",
                          "n * node_size of allocate_array(n) must not wrap (POp.Fits; counterexample C01_pool_allocArray_overflow_cex = finding D21)",
                          "low-level allocators: disjointness of what malloc/mmap return is trusted (EnvOk)"])
 
